@@ -1901,7 +1901,9 @@ func hasLayerHMax(m *Model, f *ssa.Function, seen map[*ssa.Function]bool) bool {
 									hasOld = true
 								}
 							case igNode + ".H":
-								hasNode = true
+								if isFullLayerScanElem(b2, x.Block()) {
+									hasNode = true
+								}
 							}
 						}
 					}
@@ -1919,6 +1921,92 @@ func hasLayerHMax(m *Model, f *ssa.Function, seen map[*ssa.Function]bool) bool {
 		case *ssa.MakeClosure:
 			if hasLayerHMax(m, x.Fn.(*ssa.Function), seen) {
 				found = true
+			}
+		}
+	})
+	return found
+}
+
+// isFullLayerScanElem: node is the element n = L.Nodes[i] of a loop that scans all of a layer's node list, and block `at` runs in
+// every iteration of that loop (no condition inside the iteration): the height of every node of the layer takes part
+func isFullLayerScanElem(node ssa.Value, at *ssa.BasicBlock) bool {
+	if par, ok := node.(*ssa.Parameter); ok {
+		return isRangeFuncElemOfNodeList(par, at)
+	}
+	u, ok := node.(*ssa.UnOp)
+	if !ok || u.Op != token.MUL {
+		return false
+	}
+	ia, ok := u.X.(*ssa.IndexAddr)
+	if !ok {
+		return false
+	}
+	// the layer's own list, or the node list a helper was given
+	if _, isParam := ia.X.(*ssa.Parameter); !isLoadOf(ia.X, igLayer+".Nodes") && !isParam {
+		return false
+	}
+	loops := naturalLoops(at.Parent())
+	for _, l := range loopsContaining(loops, u.Block()) {
+		idx, ok := fullScanLoopAny(l, ia.X)
+		if !ok || idx != ia.Index || !l.Body[at] {
+			continue
+		}
+		cond := false
+		for _, d := range iterationControlDeps(at, loops) {
+			if l.Body[d.If.Block()] {
+				cond = true
+			}
+		}
+		if !cond {
+			return true
+		}
+	}
+	return false
+}
+
+// isRangeFuncElemOfNodeList: par is the element parameter of the body of `for _, n := range slices.Backward(L.Nodes)` (or Values /
+// All), the body is never left early and block `at` runs in every call of it
+func isRangeFuncElemOfNodeList(par *ssa.Parameter, at *ssa.BasicBlock) bool {
+	fn := par.Parent()
+	if fn == nil || fn.Synthetic != "range-over-func yield" || at.Parent() != fn || fn.Parent() == nil {
+		return false
+	}
+	okRet := true
+	eachInstr(fn, func(in ssa.Instruction) {
+		if ret, ok := in.(*ssa.Return); ok {
+			if len(ret.Results) != 1 || !isConstBool(ret.Results[0], true) {
+				okRet = false
+			}
+		}
+	})
+	if !okRet {
+		return false
+	}
+	for _, d := range transitiveControlDeps(at) {
+		if d.If.Block() != fn.Blocks[0] {
+			return false
+		}
+	}
+	found := false
+	eachInstr(fn.Parent(), func(in ssa.Instruction) {
+		mc, ok := in.(*ssa.MakeClosure)
+		if !ok || mc.Fn != ssa.Value(fn) || mc.Referrers() == nil {
+			return
+		}
+		for _, ref := range *mc.Referrers() {
+			call, ok := ref.(*ssa.Call)
+			if !ok || len(call.Call.Args) != 1 || call.Call.Args[0] != ssa.Value(mc) {
+				continue
+			}
+			it, ok := call.Call.Value.(*ssa.Call)
+			if !ok || len(it.Call.Args) != 1 {
+				continue
+			}
+			switch calleeFullName(&it.Call) {
+			case "slices.Backward", "slices.Values", "slices.All":
+				if _, isParam := it.Call.Args[0].(*ssa.Parameter); isParam || isLoadOf(it.Call.Args[0], igLayer+".Nodes") {
+					found = true
+				}
 			}
 		}
 	})
@@ -1994,8 +2082,8 @@ func isNodeHMaxReduction(v ssa.Value, depth int) bool {
 					}
 					if u, ok := a.(*ssa.UnOp); ok && u.Op == token.MUL {
 						if fa, ok := u.X.(*ssa.FieldAddr); ok {
-							_, st := fieldChain(fa)
-							if locOfSteps(st) == igNode+".H" {
+							nb, st := fieldChain(fa)
+							if locOfSteps(st) == igNode+".H" && isFullLayerScanElem(nb, y.Block()) {
 								hasNode = true
 							}
 						}
